@@ -676,7 +676,157 @@ def operator_flags(ctx, pid):
         ctx.count("typed:%s:%s" % (t.get("ptype", "array-" + t.get("dtype", "")), "refused" if claim is None else "claims" if claim else "no-claim"))
         if claim:
             ctx.nontriv(("typed-flag", repr(d)))
+    boundary_flags(ctx, pid)
     flag_histories(ctx, pid)
+
+
+# =============================================================================== flags near their decision boundary
+# The Pauli classes decide their flags by EXACT tests (abs(weight) == 1, (phase * weight).imag == 0), so a claim True holds of the
+# matrix up to rounding of the product weight * P (a few ulp).  The oracle tolerance is tied to that: 1e-12 (relative to the
+# largest entry for Hermiticity), far below every "is close" tolerance (numpy's isclose: rtol 1e-5, atol 1e-8) a decision
+# procedure might use instead.  Inputs: weights whose modulus is 1 +- 2^-k (k = 10..53) / whose would-be-zero imaginary part is
+# 2^-k of the real part (k = 10..1074), in every complex direction, every q of the string, several scalar types, given directly
+# or ACCUMULATED by PauliOperator.add_pauli_string (0.5 + (0.5 + 2^-k), four quarters, parts that cancel back to the boundary).
+BOUNDARY_TOL = 1e-12
+_UNITS = [(1.0, 0.0), (0.0, 1.0), (-1.0, 0.0), (0.0, -1.0)]
+
+
+def _hx(c):
+    c = complex(c)
+    return [float(c.real).hex(), float(c.imag).hex()]
+
+
+def _unhx(w):
+    return complex(float.fromhex(w[0]), float.fromhex(w[1]))
+
+
+def boundary_scalar(w, wtype):
+    """the weight (given as a pair of hex floats: lossless in JSON) as a value of the requested scalar type; None when that
+    type cannot hold it exactly"""
+    c = _unhx(w)
+    if wtype == "complex":
+        return c
+    if wtype == "np.complex128":
+        return np.complex128(c)
+    if wtype in ("float", "np.float64", "np.float32", "np.longdouble"):
+        if c.imag != 0:
+            return None
+        v = {"float": float, "np.float64": np.float64, "np.float32": np.float32, "np.longdouble": np.longdouble}[wtype](c.real)
+        return v if float(v) == c.real else None
+    if wtype == "np.complex64":
+        v = np.complex64(c)
+        return v if complex(v) == c else None
+    raise KeyError(wtype)
+
+
+def boundary_instances(pid, thorough):
+    """deterministic (no PRNG).  C01: |w| = 1 +- 2^-k; C16: Im(phase * w) = +-2^-k Re, tiny overall scales"""
+    strings = [[[0], [1], 0], [[1], [1], 1], [[1, 0], [1, 1], 2], [[1], [0], 0], [[0, 1], [1, 1], 3], [[1, 1], [1, 0], 1], [[0, 0], [0, 0], 0]]
+    types = ["complex", "float", "np.complex128", "np.float64", "np.float32", "np.complex64"]
+    dirs = [1.0, -1.0, 1j, -1j, 0.6 + 0.8j, -0.8 + 0.6j, complex(np.exp(0.3j)), complex(np.exp(-2.1j))]
+    out = []
+
+    def emit(cls_via, p, parts, wtype):
+        if any(boundary_scalar(w, wtype) is None for w in parts):
+            wtype = "complex"
+        out.append({"cls": "WeightedPauliString" if cls_via == "direct" else "PauliOperator", "flag_sweep": True,
+                    "boundary": {"via": cls_via, "p": p, "parts": parts, "wtype": wtype}})
+    j = 0
+    if pid == "C01":
+        for k in range(10, 54):
+            for s in (1, -1):
+                if k == 53 and s == 1:
+                    continue                                    # 1 + 2^-53 is not a binary64 number
+                m = 1.0 + s * 2.0 ** -k
+                nd = len(dirs) if thorough else 3
+                for i in range(nd):
+                    j += 1
+                    u = dirs[(j + i) % len(dirs)] if not thorough else dirs[i]
+                    emit("direct", strings[j % len(strings)], [_hx(m * u)], types[j % len(types)])
+                # accumulated: halves, quarters (rounding inside the sum is part of the input), back onto the boundary
+                u = dirs[j % 4]                                  # exact directions: the sums below are exact for k <= 51
+                p = strings[(j + 3) % len(strings)]
+                emit("add", p, [_hx(0.5 * u), _hx((0.5 + s * 2.0 ** -k) * u)], types[(j + 1) % 2 * 2])
+                if thorough or k % 3 == 0:
+                    emit("add", p, [_hx(0.25 * u)] * 3 + [_hx((0.25 + s * 2.0 ** -k) * u)], "complex")
+                    emit("add", p, [_hx(m * u), _hx(-s * 2.0 ** -k * u)], "complex")          # sums to exactly u: a legitimate claim
+                    emit("add", p, [_hx(2.0 * u), _hx(-(1.0 - s * 2.0 ** -k) * u)], "complex")
+        for parts in ([0.1, 0.2, 0.7], [0.7, 0.2, 0.1], [0.3, 0.3, 0.3, 0.1], [1 / 3.0] * 3, [0.1] * 10, [1.0], [1j], [0.5, 0.5], [0.6 + 0.8j],
+                      [1e-5 + 1.0], [1.0 - 1e-8], [1.00001], [0.999992], [-1.000005], [0.500004, 0.5]):
+            emit("add" if len(parts) > 1 else "direct", strings[len(parts) % 3], [_hx(c) for c in parts], "complex")
+        return out
+    ks = list(range(10, 61)) + [64, 80, 100, 200, 500, 1000, 1022, 1050, 1074]
+    for k in ks:
+        for s in (1, -1):
+            j += 1
+            e = s * 2.0 ** -k
+            p = strings[j % len(strings)]
+            un = complex(*_UNITS[p[2] % 4])                     # weight = c * i^q is the Hermitian direction of a string with this q
+            for i, re in enumerate((1.0, -0.75, 3.0) if thorough else (1.0, -0.75)[(j % 2):(j % 2) + 1]):
+                c = complex(re, re * e)
+                emit("direct", p, [_hx(c * un)], types[(j + i) % 2 * 2])
+                emit("direct", p, [_hx(complex(re * e, re) * un)], "complex")                 # nearly ANTI-Hermitian: no claim expected
+            emit("add", p, [_hx(complex(0.5, e) * un), _hx(0.5 * un)], "complex")
+            if thorough or k % 3 == 0:
+                emit("add", p, [_hx(complex(1.0, e) * un), _hx(complex(1.0, -e) * un)], "complex")   # imaginary parts cancel exactly
+                emit("add", p, [_hx(complex(0.25, 0.25) * un), _hx(complex(0.25, -0.25 + e) * un)], "complex")
+    # tiny / huge overall scale: the anti-Hermitian direction of a tiny weight is below every absolute tolerance
+    for k in (20, 27, 30, 40, 60, 200, 1000, 1074, -30, -500):
+        for q in range(4):
+            p = [[1, 0], [1, 1], q]
+            un = complex(*_UNITS[q])
+            emit("direct", p, [_hx(complex(2.0 ** -k, 0) * un)], "complex")
+            emit("direct", p, [_hx(complex(0, 2.0 ** -k) * un)], "complex")
+            emit("add", p, [_hx(complex(2.0 ** -k, 2.0 ** -k) * un), _hx(complex(2.0 ** -k, 0) * un)], "complex")
+    return out
+
+
+def check_boundary_flag(ctx, pid, d):
+    from qib.operator import PauliString, WeightedPauliString, PauliOperator
+    method = "is_unitary" if pid == "C01" else "is_hermitian"
+    b = d["boundary"]
+    ws = [boundary_scalar(w, b["wtype"]) for w in b["parts"]]
+    mk = lambda w: WeightedPauliString(PauliString(*b["p"]), w)
+    if b["via"] == "direct":
+        objs = [("string", mk(ws[0]))]
+    else:
+        op = PauliOperator([mk(ws[0])])
+        for w in ws[1:]:
+            op.add_pauli_string(mk(w))
+        objs = [("accumulated string", op.pstrings[0]), ("operator", op)]
+    claims = 0
+    for who, o in objs:
+        try:
+            claim = bool(getattr(o, method)())
+        except NotImplementedError:
+            continue
+        ctx.count("boundary_flags:%s:%s" % (who, claim))
+        if not claim:
+            continue
+        claims += 1
+        M = dense(o.as_matrix())
+        if pid == "C01":
+            dev, tol = float(np.abs(M @ M.conj().T - np.eye(len(M))).max()), BOUNDARY_TOL
+        else:
+            dev, tol = float(np.abs(M - M.conj().T).max()), BOUNDARY_TOL * float(np.abs(M).max())
+        if not dev <= tol:
+            ctx.fail("boundary-flag:%s.%s:claims-true-near-the-decision-boundary-but-matrix-is-not" % (type(o).__name__, method),
+                     dict(d, object=who), ("unitary" if pid == "C01" else "Hermitian") + " matrix up to rounding (%g)" % tol, dev)
+    return claims
+
+
+def boundary_flags(ctx, pid):
+    method = "is_unitary" if pid == "C01" else "is_hermitian"
+    ctx.rules.append("flags near their decision boundary (%s): Pauli-string weights %s, in 8 complex directions / every q, as Python and numpy "
+                     "scalars of several widths, given directly or accumulated by PauliOperator.add_pauli_string (halves, quarters, parts "
+                     "cancelling back onto the boundary, decimal fractions summing to 0.9999999999999999); a claim True must hold of the "
+                     "matrix to 1e-12 (the decision is an exact test, so a true claim is exact up to rounding) - never at an is-close tolerance"
+                     % (method, "of modulus 1 +- 2^-k, k = 10..53" if pid == "C01" else
+                        "whose would-be-real part has an imaginary admixture 2^-k, k = 10..1074, and tiny / huge overall scales"))
+    for d in boundary_instances(pid, ctx.thorough):
+        if check_boundary_flag(ctx, pid, d):
+            ctx.nontriv(("boundary-flag", repr(d["boundary"])))
+        ctx.count("boundary_flags")
 
 
 # =============================================================================== flag histories (stale answers)
@@ -1044,6 +1194,8 @@ def replay_flag(ctx, pid, data):
         check_owner_history(ctx, pid, inp)
     elif "ops" in inp and "obj" in inp:
         check_flag_history(ctx, pid, inp)
+    elif "boundary" in inp:
+        check_boundary_flag(ctx, pid, inp)
     elif "cls" in inp:
         check_operator_flag(ctx, pid, inp)
     new = ctx.failing[before:]
